@@ -154,6 +154,14 @@ def run_c16(version, tier, seed, escalate, T):
                 zeros = {p: (0 if not isinstance(full[p], (str, list)) else ([] if isinstance(full[p], list) else full[p])) for p in params}
                 if any(v == 0 and not isinstance(v, list) for v in zeros.values()):
                     argsets.append(("zeros", zeros))
+                # -1 is the library's "unset" marker for most attributes, but an explicitly SUPPLIED -1 is a supplied argument:
+                # it must be stored, also where the type's default differs from -1 (e.g. timer(timer=-1) must not become 10)
+                minus = {p: (-1 if not isinstance(full[p], (str, list)) else full[p]) for p in params}
+                if any(v == -1 for v in minus.values()):
+                    argsets.append(("minus-ones", minus))
+                    for p in params:
+                        if minus[p] == -1 and md is not None and md.get(p, -1) not in (-1, None, [], ""):
+                            argsets.append((f"minus-one:{p}", {p: -1}))
                 # explicit None is the same as not passing
                 if params:
                     argsets.append(("explicit-none", {params[0]: None}))
